@@ -60,7 +60,14 @@ def Ref(obj):
     return AVal("ref", obj)
 
 
+def Record(fields, values):
+    """A (named) tuple whose elements are abstract values: value = (field names or None, tuple of AVal)."""
+    return AVal("record", (tuple(fields) if fields else None, tuple(values)))
+
+
 def truth(av: AVal) -> Optional[bool]:
+    if av is not None and av.kind == "record":
+        return len(av.value[1]) > 0
     if av.kind == "ref":
         return True
     if av.kind == "const":
@@ -509,6 +516,8 @@ class Walker:
                 sub = UNK
                 if val.kind == "const" and isinstance(val.value, (tuple, list)) and len(val.value) == len(target.elts):
                     sub = Const(val.value[i])
+                elif val.kind == "record" and len(val.value[1]) == len(target.elts):
+                    sub = val.value[1][i]
                 de = ast.Subscript(value=src, slice=ast.Constant(value=i), ctx=ast.Load()) if src is not None else None
                 self._bind(st, e.value if isinstance(e, ast.Starred) else e, sub, node, defexpr=de)
 
@@ -1270,12 +1279,16 @@ class Walker:
             # fields of a constant named tuple (urlparse() results)
             if b.kind == "const" and isinstance(b.value, tuple) and node.attr in getattr(type(b.value), "_fields", ()):
                 return [("val", Const(getattr(b.value, node.attr)), s)]
+            if b.kind == "record" and b.value[0] and node.attr in b.value[0]:
+                return [("val", b.value[1][b.value[0].index(node.attr)], s)]
             return [("val", UNK, s)]
         return self._seq([node.value], st, cont_attr)
 
     def e_Subscript(self, node, st):
         def cont(vals, s):
             base, idx = vals
+            if base.kind == "record" and idx.kind == "const" and isinstance(idx.value, int) and -len(base.value[1]) <= idx.value < len(base.value[1]):
+                return [("val", base.value[1][idx.value], s)]
             if base.kind == "const" and idx.kind == "const":
                 try:
                     return [("val", Const(base.value[idx.value]), s)]
@@ -1410,6 +1423,11 @@ class Walker:
         def cont(vals, s):
             if all(v.kind == "const" for v in vals) and not any(isinstance(e, ast.Starred) for e in node.elts):
                 return [("val", Const(ctor(v.value for v in vals)), s)]
+            if vals and ctor is tuple and not any(isinstance(e, ast.Starred) for e in node.elts):
+                # a tuple of functions / classes of the repository is a constant table
+                if all(v.kind in ("const", "ref") for v in vals):
+                    return [("val", Const(tuple(v.value for v in vals)), s)]
+                return [("val", Record(None, vals), s)]
             if vals and not any(isinstance(e, ast.Starred) for e in node.elts):
                 return [("val", TRUTHY, s)]
             if not vals:
@@ -1660,6 +1678,14 @@ class Walker:
                         return [("val", Const(nt(*[a.value for a in args], **{k: v.value for k, v in kws.items()})), s)]
                     except TypeError:
                         pass
+            if tgt.kind == "ctor" and tgt.cls is not None and not any(isinstance(a_, ast.Starred) for a_ in node.args):
+                nt = _namedtuple_type(tgt.cls)
+                if nt is not None and len(args) + len(kws) == len(nt._fields) and all(k in nt._fields for k in kws):
+                    vals_ = list(args) + [None] * (len(nt._fields) - len(args))
+                    for k, v in kws.items():
+                        vals_[nt._fields.index(k)] = v
+                    if all(v is not None for v in vals_):
+                        return [("val", Record(nt._fields, vals_), s)]
             return self._do_call(node, tgt, args, kws, s)
 
         return self._seq(pre + argnodes + kwnodes, st, cont)
